@@ -238,6 +238,28 @@ Proof.
   destruct (take_action (AAdd x) v (t :: q)); reflexivity.
 Qed.
 
+Lemma tok_index_dash : tok_index DASH = None.
+Proof. reflexivity. Qed.
+
+(* a location that resolves is never the '-' position of an array *)
+Lemma lookup_no_dash : forall p v s, p <> [] -> lookup v p = Some s -> dash_quirk v p = false.
+Proof.
+  induction p as [|t q IH]; intros v s Hne H; [congruence|].
+  destruct q as [|t2 q].
+  - unfold dash_quirk, parent_of. cbn [removelast lookup last].
+    destruct v; try reflexivity. destruct l as [|a l']; [reflexivity|].
+    destruct (leqb t DASH) eqn:Ed; [|reflexivity].
+    apply leqb_eq in Ed. subst t. cbn [lookup] in H. rewrite tok_index_dash in H. discriminate.
+  - rewrite dash_quirk_cons. rewrite lookup_rfc in H.
+    assert (Hg : rfc_get v (t :: t2 :: q) =
+                 match rfc_get v [t] with Some c => rfc_get c (t2 :: q) | None => None end).
+    { cbn [rfc_get]. destruct v; try reflexivity.
+      - destruct (rfc_index t); [|reflexivity]. destruct (nth_N l n); reflexivity.
+      - destruct (obj_get t m); reflexivity. }
+    rewrite Hg in H. destruct (rfc_get v [t]) as [c|]; [|reflexivity].
+    apply (IH c s); [discriminate|]. rewrite lookup_rfc. exact H.
+Qed.
+
 (* ---------------- one operation ---------------- *)
 Lemma apply_op_rfc : forall o d, quirk_step o d = false -> apply_op o d = rfc_op o d.
 Proof.
@@ -270,15 +292,16 @@ Proof.
     destruct to as [to|]; [|destruct d; reflexivity].
     destruct d as [v|].
     + cbn [quirk_kind] in Hq. cbn [apply_op rfc_op].
-      rewrite prefix_rfc. rewrite lookup_rfc.
+      rewrite prefix_rfc in *. rewrite lookup_rfc in *.
       destruct (toks_eqb from to) eqn:Eeq.
       * destruct (rfc_get v from); [reflexivity|discriminate].
       * destruct (proper_prefix from to) eqn:Epre.
         -- destruct (rfc_get v from); reflexivity.
-        -- destruct (rfc_get v from) as [src|]; [|reflexivity].
+        -- destruct (rfc_get v from) as [src|] eqn:El; [|reflexivity].
            assert (from <> []) as Hne.
            { intro; subst from. destruct to; simpl in *; discriminate. }
-           destruct (dash_quirk v from) eqn:Edq; [discriminate|].
+           rewrite <- lookup_rfc in El.
+           pose proof (lookup_no_dash from v src Hne El) as Edq.
            rewrite <- (remove_rfc from v Hne Edq).
            destruct (take_action ARemove v from) as [v'|]; [|reflexivity].
            destruct (addlen_quirk v' to) eqn:Eaq; [discriminate|].
@@ -290,11 +313,13 @@ Proof.
     destruct from as [from|]; [|destruct d; reflexivity].
     destruct to as [to|]; [|destruct d; reflexivity].
     destruct d as [v|].
-    + cbn [quirk_kind] in Hq. cbn [apply_op rfc_op]. rewrite lookup_rfc.
-      destruct (toks_eqb from to); [discriminate|].
-      destruct (rfc_get v from) as [src|]; [|reflexivity].
-      destruct (addlen_quirk v to) eqn:Eaq; [discriminate|].
-      apply add_op_rfc. exact Eaq.
+    + cbn [quirk_kind] in Hq. cbn [apply_op rfc_op]. rewrite lookup_rfc in *.
+      destruct (toks_eqb from to) eqn:Eeq.
+      * destruct from as [|t q]; [|discriminate].
+        apply toks_eqb_eq in Eeq. subst to. reflexivity.
+      * destruct (rfc_get v from) as [src|]; [|reflexivity].
+        destruct (addlen_quirk v to) eqn:Eaq; [discriminate|].
+        apply add_op_rfc. exact Eaq.
     + cbn [quirk_kind] in Hq. cbn [apply_op rfc_op].
       destruct (toks_eqb from to); [discriminate|reflexivity].
   - (* test *)
